@@ -135,13 +135,14 @@ CHECKS.update({
 
 CHECKS.update({
  'C03': dict(
-   text=('PARTIAL. Proved at the lexer stage: any text written as a sequence of well-placed lexemes and closed by white space is tokenised into exactly the tokens of its lexemes, blank runs contributing one newline token per line feed and nothing else (so spacing does not matter). Proved at the compile stage of the literal model (model/Compile.v, from parsed source lines to instructions): the default-modifier tables of load.go equal the independently written reference tables on all opcode/mode combinations '
-         '(\'94) and wherever \'88 accepts; a label used as an operand expands and evaluates to (label line - referring line) mod M for every M up to 2^31; one substitution pass is token-wise and replaces every EQU name by its text wherever it occurs '
-         '(so forward uses are covered: the symbol table is complete before any line is assembled); mnemonics, modifiers and pseudo-ops are recognised under every per-character letter-casing; the entry point of an accepted program is the value of its ORG/END expression '
-         'and the parser\'s metadata is returned unchanged. Together with C06 (fields, lengths, \'88 legality for all line lists) and C07 (expression values). NOT proved: the symbol-scanner and parser stages (blank/comment lines, colon suffixes, label spelling, EQU placement) '
-         'and the end-to-end statement CompileWarrior(render(p)) = meaning(p) (kept as C03_full_statement). That statement is decided on every run by the two-stage correspondence: generated abstract programs rendered under several styles by the extracted renderer, assembled by gmars and by the extracted model, compared with the extracted meaning.'),
-   design_ref='DESIGN.md 5 C03', note=NOTE_STD + ' The end-to-end statement is covered by differential testing against the by-construction meaning; only compile-stage facts are theorems.',
-   technique='Coq lemmas on the compile stage (finite table sweeps lifted by lemma, token-wise characterisation of the substitution pass, label-offset arithmetic) + per-run two-stage differential correspondence against an independent meaning function'),
+   text=('PARTIAL. Proved END TO END on the literal model (lexer, symbol scanner, FOR passes, parser, compiler) for programs of labelled instructions with ORG and END, i.e. the full statement restricted to programs without EQU, FOR and ;assert and generalised to every layout (C03_labelled_programs_partial): '
+         'any text whose lexemes, with any white space between them, form a document - comment lines, an ORG line, instruction lines with label sections in any spelling (names, colons, line ends), mnemonics in any letter case with or without modifier, operands with or without modes, one or two operands, remarks, blank lines, '
+         'an END line with labels and with or without expression - that renders an abstract program having a meaning (spec/Meaning.v: labels are offsets from the referring instruction, END-line labels the address past the code, dialect defaults for omitted modes and modifiers, lone-operand rule, fields modulo the core size, ORG/END entry point) '
+         'is assembled by compile_warrior to exactly that code, entry point and comment metadata, for both dialects and every valid configuration; a concrete program exercising all of this is checked by vm_compute to meet the hypotheses. '
+         'Also proved separately: lexer on any sequence of well-placed lexemes; default-modifier tables equal the reference tables; one substitution pass is token-wise and replaces every EQU name by its text; mnemonics recognised under every letter-casing; entry point lemma. '
+         'NOT proved: EQU lines, FOR blocks and ;assert lines inside the end-to-end statement (kept as C03_full_statement; parts in C07, C08, C14). That statement is decided on every run by the two-stage correspondence: generated abstract programs rendered under several styles by the extracted renderer, assembled by gmars and by the extracted model, compared with the extracted meaning.'),
+   design_ref='DESIGN.md 0.2, 5 C03', note=NOTE_STD + ' EQU/FOR/;assert programs are covered by differential testing against the by-construction meaning; the end-to-end theorem covers labelled instructions with ORG/END in every layout.',
+   technique='Coq end-to-end theorem for EQU/FOR-free programs (positioned-parser symbolic execution by induction over documents, refinement of the compile stage to the independent meaning function, lexer lemma for arbitrary spacing) + compile-stage lemmas + per-run two-stage differential correspondence against the independent meaning function'),
  'C08': dict(
    text=('PARTIAL. Proved on the literal model of the expander state machine (model/ForExpand.v): ONE PASS as a whole (C08_one_pass_partial) - for any lines in front of the first block, its header, a body of arbitrary lines with properly nested inner blocks, the closing ROF and the rest of the stream, the pass ends and sends exactly the front lines (labels re-attached), the block written out count times with the block labels in place, and the rest unchanged. Also, for every stream, label list and count: the body is sent count times with the counter replaced by 1..count (nothing for count 0) and all other tokens kept; '
          'from the ROF line on (also when it is the last line and lacks a newline), whatever state was reached, exactly the block is sent - first iteration with the labels written before the counter standing in front of the body line found for them, iterations 2..count plain, with a count below one only the labels - and then the rest of the program is copied unchanged up to EOF; '
